@@ -20,9 +20,10 @@ NoO == [n |-> 0, o |-> "none"]
 
 VARIABLES l, sc, L1, L2, L3, inCr, fS, fL, run, cnt, mpc, orderOK, erCnt, seenRefs, reentered,
           failedEver, created, depsOK, popOK, endOK, faultOK, lazyOK, selfOnlyOK, lookupOK, procOK, firstRun, sameOK, ranM, runOK,
+          looked,      \* what by-name lookups from Init() callbacks were handed DURING the start: [t, o]
           pubBefore    \* per node: the components that were published when its latest creation attempt began
 vars == <<l, sc, L1, L2, L3, inCr, fS, fL, run, cnt, mpc, orderOK, erCnt, seenRefs, reentered,
-          failedEver, created, depsOK, popOK, endOK, faultOK, lazyOK, selfOnlyOK, lookupOK, procOK, firstRun, sameOK, ranM, runOK, pubBefore>>
+          failedEver, created, depsOK, popOK, endOK, faultOK, lazyOK, selfOnlyOK, lookupOK, procOK, firstRun, sameOK, ranM, runOK, looked, pubBefore>>
 
 ScOf(j) == [single   |-> [n \in Node |-> ToSet(j.single[n])],
             selfOpt  |-> [n \in Node |-> j.selfOpt[n]],
@@ -60,7 +61,7 @@ FreshP(s) ==
   /\ run' = "running" /\ cnt' = [n \in Node |-> ZeroCnt] /\ mpc' = [n \in Node |-> "idle"]
   /\ orderOK' = TRUE /\ erCnt' = [n \in Node |-> 0] /\ seenRefs' = [n \in Node |-> {}]
   /\ reentered' = FALSE /\ failedEver' = FALSE /\ created' = {} /\ depsOK' = TRUE /\ popOK' = TRUE /\ endOK' = TRUE /\ faultOK' = TRUE /\ lazyOK' = TRUE
-  /\ selfOnlyOK' = TRUE /\ lookupOK' = TRUE /\ procOK' = TRUE /\ pubBefore' = [n \in Node |-> {}]
+  /\ selfOnlyOK' = TRUE /\ lookupOK' = TRUE /\ procOK' = TRUE /\ pubBefore' = [n \in Node |-> {}] /\ looked' = {}
 Init ==
   /\ l = 2 /\ sc = ScOf(Trace[1].sc)
   /\ L1 = [n \in Node |-> NoV] /\ L2 = [n \in Node |-> NoV] /\ L3 = {} /\ inCr = {}
@@ -69,7 +70,7 @@ Init ==
   /\ orderOK = TRUE /\ erCnt = [n \in Node |-> 0] /\ seenRefs = [n \in Node |-> {}]
   /\ reentered = FALSE /\ failedEver = FALSE /\ created = {} /\ depsOK = TRUE /\ popOK = TRUE /\ endOK = TRUE /\ faultOK = TRUE /\ lazyOK = TRUE
   /\ selfOnlyOK = TRUE /\ lookupOK = TRUE /\ procOK = TRUE /\ firstRun = NoFirst /\ sameOK = TRUE /\ ranM = <<>> /\ runOK = TRUE
-  /\ pubBefore = [n \in Node |-> {}]
+  /\ pubBefore = [n \in Node |-> {}] /\ looked = {}
 
 E == Trace[l]
 
@@ -169,6 +170,7 @@ Step ==
           /\ failedEver' = IF E.ev = "runReturn" /\ E.ok THEN FALSE
                            ELSE (failedEver \/ (E.ev = "createEnd" /\ ~E.ok) \/ (E.ev = "get" /\ E.err))
           /\ created' = IF E.ev = "createBegin" THEN created \cup {E.n} ELSE created
+          /\ looked' = IF E.ev = "ilooked" THEN looked \cup {[t |-> E.t, o |-> E.res.o]} ELSE looked
           /\ pubBefore' = IF E.ev = "createBegin" THEN [pubBefore EXCEPT ![E.n] = {m \in Node : L1[m] # NoV}] ELSE pubBefore
           /\ procOK' = (procOK /\ ProcCheck)
           /\ ranM' = IF E.ev = "run" THEN Append(ranM, E.n) ELSE ranM
@@ -196,6 +198,12 @@ M_C01_Identity ==
              /\ \A f \in fL : f.v.n \in Node /\ L1[f.v.n] # NoV /\ f.v.o = L1[f.v.n].o
 \* C01 / C06: no holder ever ends up with the same component twice in one slice (at any moment, also after a failed attempt
 \* was repeated)
+\* C01: also what a by-name lookup from a callback was handed DURING the start is the object that ends up published - whenever the
+\* target's substitution mode makes early reference and final version one object (none, early, spring-like; with a substitution
+\* after initialisation a lookup that hits a component still in creation gets the raw early reference: a lookup is no holder,
+\* nothing records it, and the statement of C01 speaks about lookups after the start)
+M_C01_LookupsDuringStart ==
+  Started => \A x \in looked : sc.wrap[x.t] \in {"none", "early", "spring"} => (L1[x.t] # NoV /\ L1[x.t].o = x.o)
 M_C06_SliceOnce == \A f, g \in fL : (f.h = g.h /\ f.v.n = g.v.n) => f.i = g.i
 M_C01_PublishedStable ==
   [][E.ev # "scenario" => \A n \in Node : L1[n] # NoV => L1'[n] = L1[n]]_vars
